@@ -69,6 +69,9 @@ def check_chunked(sig, cuts, ctx, detectors=_rf.DETECTORS, prefixes=True):
                 upto = sum(lens)
                 _compare(det, _rf.snapshot(det, d), _rf.snapshot(det, _rf.run_whole(det, sig[:upto])),
                          "after chunk %d (prefix of %d samples)" % (k, upto))
+                if det != "fkm":
+                    # the bookkeeping is queried between feeds, too (a history of look-ups and feeds)
+                    check_bookkeeping(det, d, chunks[:k + 1], sig[:upto])
 
         d = _rf.run_chunks(det, chunks, on_step=on_step)
         got = _rf.snapshot(det, d)
@@ -77,21 +80,28 @@ def check_chunked(sig, cuts, ctx, detectors=_rf.DETECTORS, prefixes=True):
         if det == "fkm":
             continue
         # (c) chunk bookkeeping
-        rec = d.recorder
-        if [int(x) for x in rec.chunks] != [len(c) for c in chunks]:
-            raise Violation("%s: recorder.chunks %r != chunk lengths %r" % (det, list(rec.chunks), [len(c) for c in chunks]),
-                            bucket="%s:chunks" % det)
-        pairs = list(zip(got["index_from"], got["values_from"])) + list(zip(got["index_to"], got["values_to"])) \
-            + list(zip(got["residual_index"], got["residuals"]))
-        if pairs:
-            gidx = np.array([p[0] for p in pairs], dtype=np.int64)
-            cnum, cloc = rec.chunk_local_index(gidx)
-            for (g, v), c, l in zip(pairs, cnum, cloc):
-                ok = 0 <= g < len(sig) and 0 <= c < n_chunks and 0 <= l < len(chunks[int(c)]) \
-                    and chunks[int(c)][int(l)] == sig[g] == v
-                if not ok:
-                    raise Violation("%s: global index %d (value %r) maps to chunk %d pos %d which does not hold that sample"
-                                    % (det, g, v, c, l), bucket="%s:chunk_local_index" % det)
+        check_bookkeeping(det, d, chunks, sig)
+
+
+def check_bookkeeping(det, d, chunks, sig):
+    """recorder.chunks == chunk lengths; every reported global index maps to the chunk / local position holding that sample."""
+    rec = d.recorder
+    got = _rf.snapshot(det, d)
+    n_chunks = len(chunks)
+    if [int(x) for x in rec.chunks] != [len(c) for c in chunks]:
+        raise Violation("%s: recorder.chunks %r != chunk lengths %r" % (det, list(rec.chunks), [len(c) for c in chunks]),
+                        bucket="%s:chunks" % det)
+    pairs = list(zip(got["index_from"], got["values_from"])) + list(zip(got["index_to"], got["values_to"])) \
+        + list(zip(got["residual_index"], got["residuals"]))
+    if pairs:
+        gidx = np.array([p[0] for p in pairs], dtype=np.int64)
+        cnum, cloc = rec.chunk_local_index(gidx)
+        for (g, v), c, l in zip(pairs, cnum, cloc):
+            ok = 0 <= g < len(sig) and 0 <= c < n_chunks and 0 <= l < len(chunks[int(c)]) \
+                and chunks[int(c)][int(l)] == sig[g] == v
+            if not ok:
+                raise Violation("%s: global index %d (value %r) maps to chunk %d pos %d which does not hold that sample (after %d chunks)"
+                                % (det, g, v, c, l, n_chunks), bucket="%s:chunk_local_index" % det)
 
 
 @subcheck("C01", "chunked_random", strategy=lambda tier: gs.chunked_signals(1, 60 if tier == "quick" else 400),
@@ -167,6 +177,8 @@ def feed_history(case, ctx):
             acc.extend(chunks[k])
             _compare(det, _rf.snapshot(det, d), _rf.snapshot(det, _rf.run_whole(det, acc)),
                      "after feed #%d" % k)
+            if det != "fkm":
+                check_bookkeeping(det, d, chunks[:k + 1], acc)
         d = _rf.run_chunks(det, chunks, on_step=on_step)
         s = _rf.snapshot(det, d)
         if len(chunks) >= 2 and (s["values_from"] or len(s["residuals"]) >= 3):
